@@ -5,6 +5,18 @@ V = os.path.dirname(os.path.dirname(os.path.abspath(__file__)))
 PY = '/venv/bin/python'
 
 CLAIMED = {
+  'C05': ('required impact = (tq_sig + tq_pow) x the analysis-side posterior scale at the planning displacement (C05_calibration with C06_closed_form), sigma identity, lower-bound consequence, homogeneity, shift invariance, strict antitonicity in |rho| under tq_sig + tq_pow > 0 (partial; the unrestricted claim is refuted by C05_antitone_fails and recorded as a known finding); three-way correspondence design code / analysis code / model',
+          'Lean/Mathlib proof over ℝ of the algebraic identities + Float differential run against numpy/scipy/statsmodels',
+          'floating point, scipy quantiles and numpy/statsmodels algorithms are outside the theorems; Float correspondence to 1e-9 on well-conditioned data', '7/C05'),
+  'C06': ('variance propagation through the 2x2 OLS covariance = Kerman eq. 5 for every day (C06_closed_form, C06_posterior_scale/_loc/_df), design side = analysis side (C06_design_side), summary-row laws under an explicit quantile condition with the failing region proved (C06_summary_order / _fails); layout invariance by paired real runs',
+          'Lean/Mathlib proof over ℝ + Float differential run + metamorphic real runs',
+          'groupby aggregation modelled as per-date totals computed by the harness; tails=1 & level<1/2 is a recorded finding', '7/C06'),
+  'C07': ('fixed-cost report = response summary / cost, incremental-response bounds = iROAS bounds x cost, order laws, unit equivariance (C07_fixed_*), scenario threshold (C07_scenario); variable-cost scenario only by paired real runs (determinism, equivariance) - partial',
+          'Lean/Mathlib proof over ℝ (fixed-cost) + Float differential run + paired real runs (variable-cost: partial)',
+          'simulation-based variable-cost report (scipy rvs, numpy percentile) not modelled; its order law is a recorded finding', '7/C07'),
+  'C18': ('cumulative bands ordered; pointwise bands ordered iff-style: ordered when the scale is non-decreasing (C18_pointwise_order_partial) and a proved counterexample otherwise (C18_pointwise_order_fails, recorded finding); counterfactual + difference = observed, telescoping, last-date identities; correspondence of all nine band series',
+          'Lean/Mathlib proof over ℝ + Float differential run against the real effect-series report',
+          'pandas alignment inside the report not modelled; takes the cumulative posterior (C06) as input', '7/C18'),
   'C01': ('every design evaluated or returned by the exhaustive search (C01_exhaustive) and by the greedy search for any fuel (C01_greedy, loop invariant) is a legal assignment with non-empty groups over the admitted geos; correspondence of admitted set, generators, push log and both results with the real searches; oracle from the raw eligibility table',
           'Lean proof (membership in generators, greedy loop invariant) + differential search runs',
           'search model parametric in data tables; admitted-set model (Admit.lean) tied by correspondence only', '7/C01'),
